@@ -147,6 +147,15 @@ class FailingObserver(TransmissionObserverInterface):
         raise RuntimeError("observer failure")
 
 
+class UnhashableFailingObserver(FailingObserver):
+    """value equality, hence no hash (what every @dataclass observer is)"""
+
+    def __eq__(self, other):
+        return isinstance(other, UnhashableFailingObserver)
+
+    __hash__ = None
+
+
 class _Events:
     def __init__(self, sink):
         self.events = sink
@@ -210,6 +219,7 @@ def one_config(acc, cfg, shared=None):
                 import gc
                 sink = []
                 final_tx = Transmission(FailingObserver())
+                final_tx.add_observer(UnhashableFailingObserver())
                 final_tx.add_observer(SinkRec(sink))
                 gc.collect()
                 rec = _Events(sink)
